@@ -101,11 +101,12 @@ class EnumV(Val):
 
 
 class AggV(Val):
-    __slots__ = ("kind", "fields")
+    __slots__ = ("kind", "fields", "origin")
 
     def __init__(self, kind, fields=None):
         self.kind = kind
         self.fields = fields if fields is not None else {}
+        self.origin = None
 
     def __repr__(self):
         return "%s{%s}" % (short(self.kind), ",".join("%s:%r" % (i, self.fields[i]) for i in sorted(self.fields)))
@@ -367,6 +368,19 @@ class Engine:
                 else:
                     return None
             elif k == "field":
+                cur = load(loc)
+                rcur = self.resolve(st, cur)
+                if isinstance(rcur, SymV) and not for_write:
+                    # unknown aggregate: materialise it so that its fields become distinct named symbols
+                    agg = AggV("?")
+                    agg.origin = rcur.desc
+                    st.facts[rcur.id] = agg
+                    store(loc, agg)
+                    rcur = agg
+                if isinstance(rcur, AggV) and getattr(rcur, "origin", None) is not None and pr["i"] not in rcur.fields:
+                    rcur.fields[pr["i"]] = st.fresh(("field", pr["i"], rcur.origin))
+                if rcur is not cur and isinstance(rcur, (AggV, EnumV)) and isinstance(cur, SymV):
+                    store(loc, rcur)
                 loc = loc.sub(pr["i"])
             elif k == "downcast":
                 v = self.resolve(st, load(loc))
